@@ -130,14 +130,99 @@ def frame_of(sizes, type_ident, fn_ident):
     return best
 
 
+def _charges(prog, root):
+    """(unconditional charge, conditional charge, depth threshold or None) of a function that re-enters the interpreter.
+    A charge is unconditional when its block dominates the call that enters the interpreter (in its own function /
+    closure); `push_frame` = 1, `incr_depth(c)` = c, `reset_with_frame` = 1.  The threshold is the constant k of a
+    `Context::depth() > k` test in the function: its conditional charges apply whenever the depth exceeds k."""
+    uncond = cond = 0
+    thr = None
+    for g in [root] + prog.closures_of(root.path):
+        entries = [c.bb for c in g.calls() if c.name in CHAIN or c.name.endswith("State::with_execution_state")]
+        for k in g.calls():
+            v = 0
+            if k.name == PUSH or k.name.endswith("Context::reset_with_frame"):
+                v = 1
+            elif k.name == INCR:
+                for o in _resolved_origins(prog, g, k.args[1]):
+                    if o.kind == "const" and "int" in o.const:
+                        v = max(v, int(o.const["int"]))
+                    if o.kind == "bin":
+                        for side in ("a", "b"):
+                            for o2 in flow.origins(g, o.rv[side]):
+                                if o2.kind == "const" and "int" in o2.const:
+                                    v = max(v, int(o2.const["int"]))
+            if not v:
+                continue
+            if entries and all(cfg.dominates(g, k.bb, e) for e in entries):
+                uncond += v
+            elif not entries and g is root:
+                uncond += v
+            else:
+                cond += v
+        for bb, i, st in g.all_stmts():
+            rv = st.get("rv", {})
+            if rv.get("k") == "bin" and rv["op"] in ("Gt", "Ge") and "c" in rv["b"]:
+                if any(o.kind == "call" and o.call.name == DEPTH for o in flow.origins(g, rv["a"])):
+                    kk = int(rv["b"]["c"].get("int", 0)) - (1 if rv["op"] == "Ge" else 0)
+                    thr = kk if thr is None else min(thr, kk)
+    return uncond, cond, thr
+
+
+def frame_lookup(sizes, path):
+    """frame size of a function given by its MIR path, 0 when no unambiguous symbol is found (keeps the bound a lower one)"""
+    import re as _re
+    if "{closure" in path or "{impl" in path:
+        return 0
+    m = _re.match(r"^<(.+) as (.+)>::(\w+)$", path)
+    if m:
+        ty = m.group(1).split("<")[0].split("::")[-1]
+        fn_ = m.group(3)
+    else:
+        parts = path.split("::")
+        if len(parts) < 2:
+            return 0
+        ty, fn_ = parts[-2].split("<")[0], parts[-1]
+    key = "%d%s%d%s" % (len(ty), ty, len(fn_), fn_)
+    hits = [sz for sym, sz in sizes.items() if key in sym and "NC" not in sym[:6]]
+    return min(hits) if hits else 0
+
+
+def min_frames_between(g, sizes, src, dsts, cache={}):
+    """minimum over call paths src -> .. -> d (d in dsts) of the sum of frame sizes of the functions strictly between"""
+    import heapq
+    dsts = set(dsts)
+    dist = {src: 0}
+    pq = [(0, src)]
+    while pq:
+        d, a = heapq.heappop(pq)
+        if d > dist.get(a, 1 << 60):
+            continue
+        for b in g.succ.get(a, ()):
+            if b in dsts:
+                return d
+            w = cache.get(b)
+            if w is None:
+                w = cache[b] = frame_lookup(sizes, b)
+            nd = d + w
+            if nd < dist.get(b, 1 << 60):
+                dist[b] = nd
+                heapq.heappush(pq, (nd, b))
+    return None
+
+
 def check_stack_lower_bound(ctx, prog):
-    """R5: even the lower bound of native stack use at the deepest recursion the limit admits must fit in 2 MiB"""
+    """R5: even the lower bound of native stack use at the deepest recursion the limit admits must fit in 2 MiB.
+    Self cycles (a construct re-entering itself) are charged with all its charges; mixed cycles A -> B -> A with the
+    unconditional charges only, except that B's conditional charges count when they are keyed on `depth() > k` and A
+    alone raises the depth above k."""
     sizes = stack_sizes(ctx.repo)
     ctx.floor("C11.R5 functions with a recorded frame size", len(sizes), 1000)
     fe = frame_of(sizes, "Executor", "eval_impl")
     ctx.need(fe is not None and fe > 1024, "C11.R5: frame size of eval_impl not found")
     limit = prog.const_val("minijinja::environment::MAX_RECURSION")
     ctx.analysed["R5 eval_impl frame bytes (debug)"] = fe
+    roots = {}
     for f in prog.fns.values():
         if f.path in CHAIN:
             continue
@@ -150,35 +235,45 @@ def check_stack_lower_bound(ctx, prog):
             if root.path in R5_EXEMPT:
                 ctx.count("C11.R5 exempt chains")
                 continue
-            # cost charged per level on the most charged path: push_frame = 1, incr_depth = its constant
-            cost = 0
-            for g in [root] + prog.closures_of(root.path):
-                for k in g.calls():
-                    if k.name == PUSH:
-                        cost += 1
-                    elif k.name == INCR:
-                        v = 0
-                        for o in flow.origins(g, k.args[1]):
-                            if o.kind == "const" and "int" in o.const:
-                                v = max(v, int(o.const["int"]))
-                            if o.kind == "bin":
-                                for side in ("a", "b"):
-                                    for o2 in flow.origins(g, o.rv[side]):
-                                        if o2.kind == "const" and "int" in o2.const:
-                                            v = max(v, int(o2.const["int"]))
-                        cost += v
-                    elif k.name.endswith("Context::reset_with_frame"):
-                        cost += 1
-            cost = max(cost, 1)
+            roots[root.path] = root
+    info = {}
+    g = callgraph.get(prog)
+    EIP = "minijinja::vm::Executor::eval_impl"
+    for path, root in sorted(roots.items()):
+        u, c_, thr = _charges(prog, root)
+        fr = frame_of(sizes, "Executor", path.split("::")[-1]) or 0
+        # the frames that necessarily sit between two interpreter activations on the way through this construct
+        w_in = min_frames_between(g, sizes, EIP, {path}) or 0
+        w_out = min_frames_between(g, sizes, path, {EIP}) or 0
+        ctx.analysed["R5 frames between activations via %s" % path.split("::")[-1]] = [w_in, w_out]
+        fr += w_in + w_out
+        info[path] = (max(u, 0), c_, thr, fr)
+        cost = max(u + c_, 1)
+        levels = limit // cost
+        lower = levels * (fe + fr)
+        ctx.ob("C11.R5.limit-trips-before-the-stack-ends", path, lower <= STACK_LIMIT,
+               "recursion through %s is charged %d per level, so the limit of %d admits %d nested interpreter "
+               "frames; eval_impl needs %d bytes and %s %d bytes per level (debug profile): at least %d bytes "
+               "of native stack, the 2 MiB of a spawned thread are %d" % (
+                   path.split("::")[-1], cost, limit, levels, fe, path.split("::")[-1], fr, lower, STACK_LIMIT),
+               root.loc)
+    names = sorted(info)
+    for i, a in enumerate(names):
+        for b in names[i + 1:]:
+            ua, ca, ta, fa = info[a]
+            ub, cb, tb, fb = info[b]
+            cost_a = ua + (ca if (ta is not None and ub > ta) else 0)
+            cost_b = ub + (cb if (tb is not None and ua > tb) else 0)
+            cost = max(cost_a + cost_b, 1)
             levels = limit // cost
-            fr = frame_of(sizes, "Executor", root.path.split("::")[-1]) or 0
-            lower = levels * (fe + fr)
-            ctx.ob("C11.R5.limit-trips-before-the-stack-ends", root.path, lower <= STACK_LIMIT,
-                   "recursion through %s is charged %d per level, so the limit of %d admits %d nested interpreter "
-                   "frames; eval_impl needs %d bytes and %s %d bytes per level (debug profile): at least %d bytes "
-                   "of native stack, the 2 MiB of a spawned thread are %d" % (
-                       root.path.split("::")[-1], cost, limit, levels, fe, root.path.split("::")[-1], fr, lower, STACK_LIMIT),
-                   root.loc)
+            lower = levels * (2 * fe + fa + fb)
+            ctx.ob("C11.R5.mixed-cycle-trips-before-the-stack-ends", "%s<->%s" % (a.split("::")[-1], b.split("::")[-1]),
+                   lower <= STACK_LIMIT,
+                   "a cycle %s -> %s -> .. is charged %d + %d per round (unconditional charges; conditional ones only "
+                   "when keyed on a depth the other construct exceeds), so the limit of %d admits %d rounds of two "
+                   "interpreter frames each: at least %d bytes of native stack (debug profile), the 2 MiB of a spawned "
+                   "thread are %d" % (a.split("::")[-1], b.split("::")[-1], cost_a, cost_b, limit, levels, lower, STACK_LIMIT),
+                   roots[a].loc)
 
 
 def _resolved_origins(prog, f, op):
@@ -214,6 +309,52 @@ def _const_of(f, op, prog=None):
         elif o.kind == "call":
             out.add("call:" + o.call.name.split("::")[-1])
     return out
+
+
+def check_conditional_charges(ctx, prog, tag):
+    """R7: a charge that is only taken when `current_block` is set must have a second key that survives a macro call.
+    eval_macro evaluates the macro body with `current_block = None`; a block called from there looks like a top-level
+    block call.  If a re-entering construct charges conditionally on `current_block.is_some()`, the condition must
+    also contain a `Context::depth() > k` disjunct, and every construct that resets `current_block` must raise the
+    depth above k unconditionally (the depth is inherited, it cannot be reset)."""
+    WES = "minijinja::vm::state::State::with_execution_state"
+    roots = {}
+    for f in prog.fns.values():
+        if f.path in CHAIN:
+            continue
+        if any(c.name in CHAIN for c in f.calls()):
+            root = prog.fns.get(f.root) if f.kind == "closure" else f
+            if root is not None:
+                roots[root.path] = root
+    resetters = {}
+    for path, root in roots.items():
+        for c in root.calls_to(WES):
+            for a in c.args:
+                p_ = op_place(a)
+                if p_ is None or "p" in p_:
+                    continue
+                ty = root.locals[p_["l"]].get("s", "")
+                if ty.startswith("core::option::Option<&") and "str" in ty:
+                    src = flow.origins(root, a)
+                    if src and all(o.kind == "agg" and o.rv.get("variant") == "None" for o in src):
+                        resetters[path] = _charges(prog, root)[0]
+    n = 0
+    for path, root in sorted(roots.items()):
+        u, c_, thr = _charges(prog, root)
+        if c_ <= 0:
+            continue
+        n += 1
+        others = {r: v for r, v in resetters.items() if r != path}
+        ok = thr is not None and all(v > thr for v in others.values())
+        ctx.ob("C11.R7.conditional-charge-survives-a-macro-call", tag + path, ok,
+               "%s takes %d of its charge only under a condition%s.  The only sound reason not to charge is being at the "
+               "template's top level, so the condition must hold whenever `Context::depth()` exceeds a small constant "
+               "(the depth is inherited by macros and cannot be reset; `current_block` is reset by %s, and a test for "
+               "one particular block is avoided by two blocks calling each other): otherwise a cycle is charged %d per "
+               "interpreter frame only and overflows a 2 MiB stack before the limit" % (
+                   path.split("::")[-1], c_, (" that includes depth() > %d" % thr) if thr is not None else " without a depth() test",
+                   sorted(x.split("::")[-1] for x in others) or "macros", u), root.loc)
+    return n
 
 
 def check_depth_accounting(ctx, prog, tag):
@@ -455,6 +596,8 @@ def run(ctx):
 
         # R6: depth accounting gives back exactly what was charged
         check_depth_accounting(ctx, prog, tag)
+        if prog.has_fn("minijinja::vm::Executor::call_block"):
+            ctx.floor("C11.R7 conditional charges keyed on the current block" + tag, check_conditional_charges(ctx, prog, tag), 1)
 
         # R3
         g = callgraph.get(prog)
